@@ -11,7 +11,7 @@ def run(tier):
     t = vlib.Timer()
     exe = vfsrun.build("asan")
     if tier == "quick":
-        sizes = [1, 2, 10, 8191, 8192, 8193, 16384, 65535, 65536, 65537, 131073]
+        sizes = [1, 2, 10, 8191, 8192, 8193, 16384, 65535, 65536, 65537, 131073, 1048575, 1048577, 2097153]   # incl. just below/above 1 MiB (the sink's default size limit, a natural slice size) and 2 MiB
         hist_cfgs = vfsrun.cfgs([5], [0, 3], [4, 6, 7]) + vfsrun.cfgs([0], [0], [5, 7])
         depth, cdepth = 3, 1
         crash_cfgs = vfsrun.cfgs([5], [0, 3], [4, 7])
